@@ -387,3 +387,13 @@ Theorem C15_euler_all_images_partial :
   forall (im : image) (l : Z), rect im -> l <> 0 -> euler4 im l = 4 * euler_spec im l.
 Proof. exact euler_is_components_minus_holes_all. Qed.
 Print Assumptions C15_euler_all_images_partial.
+
+(* ================================================================ round 7.  The premise of
+   C15_euler_all_images_partial (existence half of the Jordan lemma) is still NOT proved.  What is proved without
+   it, for EVERY rectangular label image and every label (Full): one of the two inequalities - the quad-count
+   Euler number is never below components - holes.  (Raster induction; in the one open case "the last pixel joins
+   two objects" adding the pixel to the background can only merge background classes, add_point_le.)  Equality
+   for every image is equivalent to the premise. *)
+Theorem C15_euler_lower_bound : forall (im : image) (l : Z), rect im -> l <> 0 -> 4 * euler_spec im l <= euler4 im l.
+Proof. exact euler_lower_bound. Qed.
+Print Assumptions C15_euler_lower_bound.
